@@ -120,9 +120,9 @@ func c12GenCase(rng *rand.Rand, thorough bool) (c12Cfg, []c12Event) {
 	cfg.writeBatchWait = []time.Duration{0, time.Millisecond, 200 * time.Microsecond}[rng.IntN(3)]
 	cfg.snapChunk = uint64(64 + rng.IntN(2048))
 	cfg.clients = 3 + rng.IntN(3)
-	cfg.maxProposals = 900
+	cfg.maxProposals = 2500
 	if thorough {
-		cfg.maxProposals = 1500
+		cfg.maxProposals = 3500
 	}
 	cfg.base = c12GenFaults(rng)
 	// Apply backpressure: in ~2/3 of the cases the per-slot apply pipeline is
@@ -475,7 +475,7 @@ type c12Cluster struct {
 	ctx      context.Context
 	cancel   context.CancelFunc
 	stopCli  atomic.Bool
-	burst    atomic.Bool
+	burstUntil atomic.Int64 // unix nanos; workload pacing only
 	proposed atomic.Int64
 	waiters  sync.WaitGroup
 	clients  sync.WaitGroup
@@ -575,8 +575,9 @@ func (cl *c12Cluster) client(id int, rng *rand.Rand) {
 			cl.outcome("future.acknowledged")
 			cl.mon.ack(slot, uint64(nd.id), body, before, res, nd.logs[slot])
 		}(nd)
-		if !cl.burst.Load() {
-			time.Sleep(time.Duration(rng.IntN(4000)) * time.Microsecond)
+		// paced so that traffic lasts for the whole schedule; bursts are timed
+		if time.Now().UnixNano() > cl.burstUntil.Load() {
+			time.Sleep(time.Duration(1000+rng.IntN(7000)) * time.Microsecond)
 		}
 	}
 }
@@ -715,24 +716,23 @@ func (cl *c12Cluster) runEvent(e c12Event, rng *rand.Rand) string {
 		sm := inc.sms[slot]
 		g := &c12ApplyGate{entered: make(chan struct{}), release: make(chan struct{})}
 		sm.gate.Store(g)
-		wasBurst := cl.burst.Load()
-		cl.burst.Store(true)
+		cl.burstUntil.Store(time.Now().Add(700 * time.Millisecond).UnixNano())
 		label := "apply-gate"
 		select {
 		case <-g.entered:
 			time.Sleep(time.Duration(40+e.pct) * time.Millisecond)
-		case <-time.After(400 * time.Millisecond):
+		case <-time.After(500 * time.Millisecond):
 			label = "apply-gate(idle)"
 		}
 		sm.gate.Store(nil)
 		close(g.release)
-		cl.burst.Store(wasBurst)
+		cl.burstUntil.Store(0)
 		return label
 	case "faults":
 		cl.net.setFaults(e.f)
 		return "faults"
 	case "burst":
-		cl.burst.Store(!cl.burst.Load())
+		cl.burstUntil.Store(time.Now().Add(time.Duration(100+e.pct*3) * time.Millisecond).UnixNano())
 		return "burst"
 	}
 	return e.kind
@@ -1015,7 +1015,7 @@ func c12RunCase(t *testing.T, r *verifkit.Run, caseIdx int) {
 	// heal, calm the network, make sure everybody is up, let clients finish
 	cl.net.heal()
 	cl.net.setFaults(c12Faults{})
-	cl.burst.Store(false)
+	cl.burstUntil.Store(0)
 	time.Sleep(200 * time.Millisecond)
 	cl.stopCli.Store(true)
 	cl.clients.Wait()
